@@ -5,7 +5,21 @@ V = '/verif'
 checks = json.load(open(f'{V}/checks.json'))
 TEXT = {
  'C01': ("Bounded symbolic model checking of the real batch-size arithmetic and workload-knob writers: every CalculateBatchContext/UpgradeBatch path is executed symbolically over all replica counts and plans within the bounds and the exposure bound is discharged by the SMT solver; the executor batch gate and the Rollout-side batchPartition writer are checked as one-step transition obligations from an arbitrary persisted state.",
-         "History/schedule quantification is reduced to one-step obligations from an arbitrary persisted state plus the paper argument in DESIGN.md section 6 C01; workload controllers behave as documented (A3)."),
+         "History/schedule quantification is reduced to one-step obligations from an arbitrary persisted state plus the paper argument in DESIGN.md section 6 C01; workload controllers behave as documented (A3). Covered: CalculateBatchContext+UpgradeBatch of all seven styles (exposure bound, never moving back), the executor gate (never beyond batchPartition). The Rollout-side writer of batchPartition is covered by C02's runBatchRelease stub contract only."),
+ 'C02': ("Bounded symbolic model checking of the real per-step state machines: one reconcile of (*canaryReleaseManager).runCanary and (*blueGreenReleaseManager).runCanary (with doCanaryUpgrade/Paused/Jump) is executed symbolically from an arbitrary persisted status cursor, with the traffic-routing manager and runBatchRelease replaced by stubs returning arbitrary results; the transition relation (index moves only from Ready by one; Upgrade leaves only when the BatchRelease is current, observed, Ready and at the step's batch; TrafficRouting leaves only when routing reported verified; Paused leaves only with a duration or the 100%-last-step rule; paused rollouts make no progress; dispatch of rollback/plan-edit/supersession) is discharged by the solver over all paths.",
+         "Histories/crash points are reduced to one step from an arbitrary persisted state (DESIGN.md section 3): nothing but the persisted status is remembered. Collaborators are stubs with arbitrary outcomes (listed in evidence.stubs_used); status is persisted only when the step returns no error (C06)."),
+ 'C03': ("The ordering half of the property on the same symbolic step relation as C02: DoTrafficRouting is invoked only in the TrafficRouting sub-state, that sub-state is entered only after the step's upgrade was reported ready by a current BatchRelease, and a first step with traffic pins the stable Service (PatchStableService returned done) before runBatchRelease is called.",
+         "The exact share written to each provider is C13 (Gateway API), C14 (Ingress) and C15 (custom); Manager.DoTrafficRouting's own pre-conditions are stubbed here."),
+ 'C04': ("Bounded symbolic model checking of the clean-up ordering code: nextCanaryTask/nextBlueGreenTask unrolled to END for a symbolic finalise reason (every string), doCanaryFinalising (both managers) and doProgressingReset from an arbitrary persisted finalising cursor with every task stubbed to an arbitrary (retry, error); routes are withdrawn before the canary Service is removed, the stable Service is un-pinned before stable pods are replaced, each task runs only after the previous one reported completion, and a partition-style step that replaces all stable pods restores the stable Service first.",
+         "What a gateway controller does with a Service without endpoints is outside (A3); Manager.FinalisingTrafficRouting internals are stubbed."),
+ 'C07': ("Bounded symbolic model checking of the arithmetic half of the property for all seven workload styles: assuming the workload controller converged to the knob written by UpgradeBatch, the controller's own IsBatchReady accepts (no wait on a target it can never reach), and IsBatchReady reports ready whenever all of its conditions hold (no spurious wait).",
+         "End-to-end termination (delivery of watch events, wall-clock requeues) is not encoded: only the step-level sufficient conditions are decided, the composition is argued in DESIGN.md section 6 C07."),
+ 'C09': ("Two-stage bounded symbolic model checking: (1) validateRolloutSpec / validateRolloutUpdate / validateRolloutConflict are executed on symbolic Rollouts (nil, integer, percent and malformed replicas/traffic, 0..2 routings) and every accepted object satisfies the structural promises; (2) a Rollout satisfying exactly those promises, with any int32 in the user-editable nextStepIndex and any sub-state, goes through handleNormalRolling/runCanary/doCanaryJump, handleRolloutPlanChanged/recalculateCanaryStep and newTrafficRoutingContext under a no-panic obligation.",
+         "Admission plumbing (Handle, decoder) and CRD schema validation are outside; assume-guarantee split between the two stages."),
+ 'C10': ("Bounded symbolic model checking of doProgressingInRolling's dispatch (rollback-directly, paused, rollback-in-batches, supersession, plan edit, normal) against an independent restatement of the conditions, over every combination of workload flags, strategy, workload kind and traffic routing; rollback enters Cancelling and nothing else; supersession restores the gateway before the BatchRelease is removed (canary) or is refused without touching anything (blue-green); cancellation ends Succeeded=False only after clean-up is done. Task orders are C04.",
+         "Collaborators stubbed with arbitrary outcomes; one-step reduction as C02."),
+ 'C11': ("Bounded symbolic model checking of one executor round (syncStatusBeforeExecuting + executeBatchReleasePlan + progressBatches, with a control.Interface stub returning arbitrary results) from an arbitrary persisted BatchRelease status satisfying a stated, inductive invariant; of BatchContext.IsBatchReady against an independent reference; and of Finalize (blue-green Deployment/CloneSet, canary stable Deployment) on first attempt and on retry with the API server's view of the workload symbolic.",
+         "Known finding (listed in known_findings.json): blue-green Deployment Finalize retry waits on an empty object. Control planes other than the three Finalize implementations are stubbed at control.Interface."),
  'C13': ("Bounded symbolic model checking of the real buildDesiredHTTPRoute (weight, match and finalise branches) over all HTTPRoute shapes within the bounds with symbolic names/weights/headers; weight split, narrowness of generated matches, untouched foreign rules/backends, fixed point and restore are SMT obligations; counterexamples are replayed natively before being reported.",
          "Shape bounds in evidence.bounds; stored rules have >=1 match (CRD default); at most one canary ref per rule (reachability invariant, itself asserted); EnsureRoutes/Finalise client plumbing outside."),
  'C20': ("Bounded symbolic model checking of the real ConvertTo/ConvertFrom code for Rollout and BatchRelease: every optional block nil/present within the factor groups, all leaf strings and integers symbolic; no-panic/no-error on schema-admitted shapes and meaning-preserving round trips are SMT obligations over all leaf values; models replayed natively.",
